@@ -673,6 +673,15 @@ func genC06(w *bufio.Writer, r *rng, thorough bool) {
 			emit(w, "pt.dec %s", hx(b[:31]))
 		}
 	}
+	// valid points at the edges of the canonical range
+	for _, x := range boundaryXs() {
+		_, _, y := classifyX(x)
+		emit(w, "pt.dec %s", be32(x))
+		emit(w, "pt.dec %s", be32(new(big.Int).Add(x, pMod)))
+		emit(w, "pt.decunc %s%s 0", be32(x), be32(largerRoot(y)))
+		emit(w, "pt.decunc %s%s 0", be32(x), be32(subm(big.NewInt(0), largerRoot(y))))
+		emit(w, "rdpt %s - 0 -", be32(x))
+	}
 	// valid encodings of structured elements
 	for _, h := range pointPool(r, 40) {
 		emit(w, "pt.dec %s", h)
@@ -861,6 +870,39 @@ func lawProgram(r *rng, identityOperand bool) string {
 	return strings.Join(prog, ";")
 }
 
+// boundaryXs: valid (on-curve, subgroup) x-coordinates sitting at the edges of the canonical
+// range: just below p, sharing the top limb(s) of p, tiny values.
+func boundaryXs() []*big.Int {
+	var out []*big.Int
+	mask64 := new(big.Int).SetUint64(^uint64(0))
+	top1 := new(big.Int).Lsh(new(big.Int).And(new(big.Int).Rsh(pMod, 192), mask64), 192)
+	top2 := new(big.Int).Lsh(new(big.Int).Rsh(pMod, 128), 128)
+	top3 := new(big.Int).Lsh(new(big.Int).Rsh(pMod, 64), 64)
+	bases := []*big.Int{top1, top2, top3, big.NewInt(0), pow2(64), pow2(128), pow2(192)}
+	for _, b := range bases {
+		found := 0
+		for k := int64(0); k < 400 && found < 4; k++ {
+			x := add(b, k)
+			if x.Cmp(pMod) >= 0 {
+				break
+			}
+			if on, sg, _ := classifyX(x); on && sg {
+				out = append(out, x)
+				found++
+			}
+		}
+	}
+	found := 0
+	for k := int64(1); k < 400 && found < 6; k++ {
+		x := sub(pMod, k)
+		if on, sg, _ := classifyX(x); on && sg {
+			out = append(out, x)
+			found++
+		}
+	}
+	return out
+}
+
 // pointWithRatio solves the curve equation for a point with x/y = t (independently of the
 // library) and returns its compressed encoding, or "" if there is none in the subgroup.
 func pointWithRatio(t *big.Int) string {
@@ -928,6 +970,26 @@ func ratioTargets(r *rng) []*big.Int {
 }
 
 func genGrp(w *bufio.Writer, r *rng, thorough bool, id string) {
+	if id == "C07" {
+		var regs []string
+		for _, x := range boundaryXs() {
+			regs = append(regs, "dec:"+be32(x))
+			// the other sign of x: the negated element, also valid
+			regs = append(regs, "dec:"+be32(subm(big.NewInt(0), x)))
+		}
+		regs = append(regs, "dec:"+be32(big.NewInt(0))) // the identity as decoded: (0,-1)
+		for i := 0; i < len(regs); i += 8 {
+			j := i + 8
+			if j > len(regs) {
+				j = len(regs)
+			}
+			n := j - i
+			prog := strings.Join(regs[i:j], ";") + fmt.Sprintf(";flip:0;resc:1:%s;add:0:%d;sub:%d:%d;z;o;smul:%d:%s", be32(big.NewInt(11)), n-1, n+2, n-1, n-1, r.frHex())
+			emit(w, "grp %s", prog)
+		}
+		// decoded identity (0,-1) through every operation
+		emit(w, "grp dec:%s;g;add:1:0;sub:2:1;smul:0:%s;smul:3:%s;dbl:0;neg:0;z;o;flip:9;mix:1:0", be32(big.NewInt(0)), r.frHex(), r.frHex())
+	}
 	if id == "C11" {
 		var regs []string
 		for _, t := range ratioTargets(r) {
@@ -939,6 +1001,10 @@ func genGrp(w *bufio.Writer, r *rng, thorough bool, id string) {
 			prog := strings.Join(regs[i:i+6], ";") + ";flip:0;resc:1:" + be32(big.NewInt(7)) + ";o;add:2:8"
 			emit(w, "grp %s", prog)
 			emit(w, "batch %s", prog)
+		}
+		// large batches (also issued concurrently by the check's second mode)
+		for i := 0; i < 12; i++ {
+			emit(w, "batch %s", genProgram(r, 280+r.intn(60), false, false))
 		}
 	}
 	cnt := 60
